@@ -7,7 +7,9 @@ Description IR (JSON-able):
     service = {"name": str, "rq": obj, "pos": [obj, ...], "neg": [obj, ...]}
     obj     = {"name": str, "params": [param, ...]}           # list order = order in <PARAMS>
     param   = {"k": "cc",  "name", "pos", "bit", "len", "val", "hl"}   CODED-CONST (A_UINT32, len bits)
-            | {"k": "val", "name", "pos", "len", "hl"}                 VALUE, identical unsigned DOP of 8/16 bits
+            | {"k": "val", "name", "pos", "len", "hl"[, "bit"]}        VALUE, identical unsigned DOP of 1..8/16 bits
+                                                                        ("bit" = BIT-POSITION of a sub-byte value that
+                                                                        shares its byte with a sub-byte constant)
             | {"k": "mrp", "name", "pos", "rqpos", "n"}                MATCHING-REQUEST-PARAM
             | {"k": "nrc", "name", "pos", "vals": [int, ...]}          NRC-CONST, 8 bit, overlapped by a VALUE
 
@@ -74,7 +76,7 @@ def encode(obj, values: dict, request: bytes | None = None) -> bytes:
         if k == "cc":
             _place(buf, p["pos"], p.get("bit", 0), p["len"], p["val"], p["hl"])
         elif k == "val":
-            _place(buf, p["pos"], 0, p["len"], values[p["name"]], p["hl"])
+            _place(buf, p["pos"], p.get("bit", 0), p["len"], values[p["name"]], p["hl"])
         elif k == "mrp":
             if request is None or len(request) < p["rqpos"] + p["n"]:
                 raise ValueError("matching request parameter needs a long enough request")
@@ -94,7 +96,7 @@ def decode_values(obj, msg: bytes) -> dict:
         if k == "cc":
             out[p["name"]] = _extract(msg, p["pos"], p.get("bit", 0), p["len"], p["hl"])
         elif k == "val":
-            out[p["name"]] = _extract(msg, p["pos"], 0, p["len"], p["hl"])
+            out[p["name"]] = _extract(msg, p["pos"], p.get("bit", 0), p["len"], p["hl"])
         elif k == "nrc":
             out[p["name"]] = msg[p["pos"]]
         elif k == "mrp":
@@ -113,7 +115,7 @@ def const_prefix(obj, rq_prefix: bytes = b"") -> bytes:
         k = p["k"]
         if k == "cc":
             _place(buf, p["pos"], p.get("bit", 0), p["len"], p["val"], p["hl"])
-            _place(known, p["pos"], p.get("bit", 0), p["len"], (1 << p["len"]) - 1, True)
+            _place(known, p["pos"], p.get("bit", 0), p["len"], (1 << p["len"]) - 1, p["hl"])
         elif k == "mrp" and p["rqpos"] + p["n"] <= len(rq_prefix):
             buf[p["pos"]:p["pos"] + p["n"]] = rq_prefix[p["rqpos"]:p["rqpos"] + p["n"]]
             known[p["pos"]:p["pos"] + p["n"]] = b"\xff" * p["n"]
@@ -263,7 +265,8 @@ def _param_xml(p) -> str:
         return (f'<PARAM xsi:type="CODED-CONST">{head}{bit}<CODED-VALUE>{p["val"]}</CODED-VALUE>'
                 f'{_dct(p["len"], p["hl"])}</PARAM>')
     if k == "val":
-        return f'<PARAM xsi:type="VALUE">{head}<DOP-REF ID-REF="{dop_id(p["len"], p["hl"])}"/></PARAM>'
+        bit = f'<BIT-POSITION>{p["bit"]}</BIT-POSITION>' if p.get("bit", 0) else ""
+        return f'<PARAM xsi:type="VALUE">{head}{bit}<DOP-REF ID-REF="{dop_id(p["len"], p["hl"])}"/></PARAM>'
     if k == "mrp":
         return (f'<PARAM xsi:type="MATCHING-REQUEST-PARAM">{head}<REQUEST-BYTE-POS>{p["rqpos"]}'
                 f'</REQUEST-BYTE-POS><BYTE-LENGTH>{p["n"]}</BYTE-LENGTH></PARAM>')
@@ -282,7 +285,7 @@ def _obj_xml(tag: str, oid: str, obj) -> str:
 
 def layer_xml(layer) -> bytes:
     dops = ""
-    for nbits in (8, 16):
+    for nbits in (1, 2, 3, 4, 5, 6, 7, 8, 16):
         for hl in (True, False):
             i = dop_id(nbits, hl)
             dops += (f'<DATA-OBJECT-PROP ID="{i}"><SHORT-NAME>{i}</SHORT-NAME><COMPU-METHOD>'
